@@ -213,7 +213,9 @@ class C05(DecProp):
     rule = ("P lines: (a) histories containing rejected pictures at every depth (header, macroblock header, block data, prediction) followed by valid continuations; "
             "(b) every byte split of a valid picture across two deliveries (append part 1, decode, append part 2, decode) against the single delivery.  On the implementation's "
             "own output: after a call that returned an error the last picture, the reference picture and the number of unread bits are those before the call (plus the bits appended), "
-            "and a call that failed for lack of data, repeated after the rest was appended, yields the single-delivery picture.  Non-trivial: the line contains a failed call "
+            "and a call that failed for lack of data, repeated after the rest was appended, yields the single-delivery picture; "
+            "(c) `leak`: a PLUSPTYPE picture that announces options (modified quantization, unrestricted vectors, ...) and is rejected after its header, followed by a picture "
+            "that carries no OPPTYPE of its own; (d) pictures of 8 KiB and more split, or corrupted, beyond their first 4 KiB.  Non-trivial: the line contains a failed call "
             "followed by a successful one; distinct by text.")
 
     def cases(self, tier, rng):
@@ -241,6 +243,29 @@ class C05(DecProp):
                 s = f"P {t[1]} a:{hx[:2 * k]};n;a:{hx[2 * k:]};n"
                 self._splits[s] = l
                 out.append(s)
+        # options announced by a rejected picture, then a picture that inherits its options
+        out += core.gen_lines("leak", seed + 3, core.q(tier, 24, 240))
+        # pictures of 8 KiB and more: deliveries split, and errors planted, beyond the first 4 KiB (after a small valid picture)
+        small = core.gen_lines("intra", seed + 4, 8)
+        for j, l in enumerate(core.gen_lines("bigintra", seed + 5, core.q(tier, 2, 12))):
+            t = l.split(" ")
+            hx = t[2][2:]
+            nb = len(hx) // 2
+            if nb < 4400:
+                continue
+            out.append(l)
+            for k in sorted(set([4097, nb - 1] + [rng.randrange(4097, nb) for _ in range(core.q(tier, 2, 6))])):
+                s = f"P {t[1]} a:{hx[:2 * k]};n;a:{hx[2 * k:]};n"
+                self._splits[s] = l
+                out.append(s)
+            b = bytearray(bytes.fromhex(hx))
+            for _ in range(core.q(tier, 2, 6)):
+                b2 = bytearray(b)
+                i = rng.randrange(4200, nb)
+                b2[i:i + 4] = bytes(rng.randint(0, 255) for _ in range(4))
+                first = [x for x in small if x.split(" ")[1] == t[1]]
+                pre = (first[j % len(first)].split(" ")[2] + ";") if first else ""
+                out.append(f"P {t[1]} {pre}d:{bytes(b2).hex()};n")
         return out
 
     def nontrivial(self, case, model_out):
